@@ -237,6 +237,9 @@ def model(A, fn, frame, b, t, st, name):
         if matches(n, "Deref::deref", "DerefMut::deref_mut", "AsRef::as_ref", "AsMut::as_mut", "Borrow::borrow", "hint::must_use", "Box::new", "convert::identity"):
             return ret(v if v[0] in ("ptr", "int", "opt", "tuple") else None)
         return ret(None)
+    if matches(n, "Clone::clone") and is_int_ty(dest_ty):
+        i = int_of(A, st, A.arg(st, frame, t, 0))
+        return ret(("int", i) if i is not None else None)
     if matches(n, "Into::into", "From::from") and is_int_ty(dest_ty):
         i = int_of(A, st, A.arg(st, frame, t, 0))
         if i is not None:
@@ -396,11 +399,16 @@ def model(A, fn, frame, b, t, st, name):
                         sx.ok = False
                     elif sx.proof is None:
                         sx.proof = "truncation point is len - k under ends_with(k ASCII bytes)"
-            ns = A.newsym(st, "len", 0, LEN_MAX)
-            st.store.add(Lin.sym(ns).sub(ln))
-            if i is not None:
-                st.store.add(Lin.sym(ns).sub(i))
-            newlen = Lin.sym(ns)
+            if i is not None and st.store.entails(i.sub(ln)):
+                newlen = i                      # truncating to n <= len gives exactly n
+            elif i is not None and st.store.entails(ln.sub(i)):
+                newlen = ln
+            else:
+                ns = A.newsym(st, "len", 0, LEN_MAX)
+                st.store.add(Lin.sym(ns).sub(ln))
+                if i is not None:
+                    st.store.add(Lin.sym(ns).sub(i))
+                newlen = Lin.sym(ns)
         elif m == "clear":
             newlen = Lin.const(0)
         elif m in ("retain", "retain_mut", "drain", "dedup", "pop", "split_off", "remove"):
